@@ -543,6 +543,14 @@ def interface_roundtrip(ctx, K, cfg, out, abi, ch, addr, calls, fail, stats):
             else:
                 fail(f"{kind} entries of the compiled `interface` output differ from the contract ABI",
                      contract=a, iface=b)
+    # every type definition which the interface output repeats must be the declaration: members in declaration order
+    # (flag members are bit positions, struct members are ABI tuple positions), same member types
+    decl, emitted = parse_type_blocks(K["src"]), parse_type_blocks(itext)
+    for key, members in emitted.items():
+        if key in decl and decl[key] != members:
+            fail("a type definition in the `interface` output differs from the declaration (member order / types)",
+                 type=" ".join(key), declared=decl[key], interface=members, interface_text=itext)
+        stats["interface_type_defs_compared"] += 1
     # the contract must implement its own emitted interface
     lines0 = K["src"].split("\n")
     k0 = 1 if lines0 and lines0[0].startswith("# pragma") else 0
@@ -710,6 +718,96 @@ def drive_modules(ctx, M, cfg, rnd, stats):
     stats["module_programs"] += 1
 
 
+def parse_type_blocks(text):
+    """{("flag"|"struct", name): [member lines]} of a source / interface text"""
+    blocks, cur = {}, None
+    for l in text.splitlines():
+        m = re.match(r"^(flag|struct) (\w+):\s*$", l)
+        if m:
+            cur = (m.group(1), m.group(2))
+            blocks[cur] = []
+        elif cur is not None and l.startswith(" ") and l.strip():
+            blocks[cur].append(re.sub(r"\s+", " ", l.strip()))
+        elif l.strip():
+            cur = None
+    return blocks
+
+
+FLAG_TARGET = """
+flag Perm:
+    WRITE
+    READ
+    EXEC
+    ADMIN
+
+struct Grant:
+    who: address
+    perm: Perm
+    extra: uint8
+
+@external
+@pure
+def raw(p: Perm) -> uint256:
+    return convert(p, uint256)
+
+@external
+@pure
+def admin_or(p: Perm) -> Perm:
+    return Perm.ADMIN | p
+
+@external
+@pure
+def unpack(g: Grant) -> (uint256, uint256):
+    return convert(g.perm, uint256), convert(g.extra, uint256)
+"""
+FLAG_MEMBERS_DECL = ["WRITE", "READ", "EXEC", "ADMIN"]
+
+
+def probe_flag_interface(ctx, cfg, stats):
+    """a caller which imports the emitted `interface` output and names flag members / builds structs by member name must
+    send the same bits as the declaration says (flag: 2**declaration index; struct: ABI tuple in declaration order)"""
+    from vlib.evm import Chain
+    from eth_abi import decode, encode
+    with warnings.catch_warnings():
+        warnings.simplefilter("ignore")
+        out = compile_src(FLAG_TARGET, cfg, formats=("abi", "bytecode", "interface"), contract_path="target.vy")
+        itext = out["interface"]
+        caller = "import target\n\n"
+        for mname in FLAG_MEMBERS_DECL:
+            caller += (f"@external\n@view\ndef raw_{mname}(t: address) -> uint256:\n    return staticcall target(t).raw(target.Perm.{mname})\n\n")
+        caller += ("@external\n@view\ndef is_admin_read(t: address) -> bool:\n"
+                   "    return staticcall target(t).admin_or(target.Perm.READ) == (target.Perm.ADMIN | target.Perm.READ)\n\n"
+                   "@external\n@view\ndef unpack(t: address) -> (uint256, uint256):\n"
+                   "    return staticcall target(t).unpack(target.Grant(who=t, perm=target.Perm.EXEC, extra=9))\n")
+        try:
+            cout = compile_src(caller, cfg, formats=("abi", "bytecode"), contract_path="caller.vy",
+                               input_bundle=bundle_for({}, extra={"target.vyi": itext}))
+        except Exception as ex:
+            raise Fail("a caller importing the emitted `interface` output (flag / struct by member name) is rejected",
+                       {"config": cfg.name, "src": FLAG_TARGET, "interface": itext, "caller": caller, "error": str(ex)[:600]})
+    ch = Chain(cfg.evm)
+    taddr = ch.deploy(bytes.fromhex(out["bytecode"][2:]))
+    caddr = ch.deploy(bytes.fromhex(cout["bytecode"][2:]))
+    info = {"config": cfg.name, "src": FLAG_TARGET, "interface": itext, "caller": caller}
+
+    def call(sig, rtypes):
+        r = ch.call(caddr, keccak(sig.encode())[:4] + encode(["address"], [taddr]), static=True)
+        stats["caller_calls"] += 1
+        if not r.ok:
+            raise Fail("call through the interface-importing caller reverted", dict(info, call=sig))
+        return decode(rtypes, r.out)
+    for i, mname in enumerate(FLAG_MEMBERS_DECL):
+        got = call(f"raw_{mname}(address)", ["uint256"])[0]
+        if got != 2 ** i:
+            raise Fail("flag member named through the emitted `interface` output has a different value than in the contract",
+                       dict(info, member=f"Perm.{mname}", declared_value=2 ** i, value_sent_by_caller=got))
+    if call("is_admin_read(address)", ["bool"])[0] is not True:
+        raise Fail("flag value returned to an interface-importing caller compares unequal to the same members named by the caller", info)
+    if tuple(call("unpack(address)", ["uint256", "uint256"])) != (4, 9):
+        raise Fail("struct built by member name through the emitted `interface` output arrives with different members", info)
+    stats["flag_interface_probes"] += 1
+
+
 def split_top(s):
     out, depth, cur = [], 0, ""
     for ch in s:
@@ -764,6 +862,15 @@ def run(ctx):
                     ctx.violation("failing-input", f.name, f.detail, key="C19:" + f.name[:60])
                 break
         if len(reported) >= 3:
+            break
+    for cfg in ([cfgs[0], cfgs[2]] if ctx.tier == "quick" else cfgs):
+        try:
+            probe_flag_interface(ctx, cfg, stats)
+        except Fail as f:
+            found = True
+            if f.name not in reported:
+                reported.add(f.name)
+                ctx.violation("failing-input", f.name, f.detail, key="C19:" + f.name[:60])
             break
     mrnd = ctx.rng("module-events")
     for i in range(8 if ctx.tier == "quick" else 40):
